@@ -224,4 +224,73 @@ def buildRoute (subs : List (List String)) (kw : List String) : Option (List (Li
       if kw.all (p.contains ·) then some (subs.map (fun _ => kw)) else none
     else some (subs.map (fun q => kw.filter (q.contains ·)))
 
+
+/-! ## nested keyword routing of `build_antennas`
+
+`BNode` is the build view of a detector: a `leaf` overrides `build_antennas` with explicit parameters;
+a `comb` (a `CombinedDetector`, or a `Detector` subclass made of sub-detectors) keeps the default one.
+`_mirror_build_function` makes a `comb` ADVERTISE the signature its sub-detectors share (`some ps`);
+when they differ it keeps the generic `(*args, **kwargs)` (`none`).  A parent whose sub-detectors
+advertise different signatures passes each one only the keywords that are parameters of ITS advertised
+signature — for a generic signature these are none (the names `args`/`kwargs` aside).  The mirroring
+wrapper itself does not validate its arguments; a `TypeError` can only come from a leaf. -/
+inductive BNode
+  | leaf (tag : Nat) (params : List String)
+  | comb (subs : List BNode)
+deriving Repr
+
+mutual
+def bsig : BNode → Option (List String)
+  | .leaf _ ps => some ps
+  | .comb subs => match bsigL subs with
+      | [] => none
+      | s :: r => if r.all (· == s) then s else none
+def bsigL : List BNode → List (Option (List String))
+  | [] => []
+  | n :: r => bsig n :: bsigL r
+end
+
+def sigsMatch : List (Option (List String)) → Bool
+  | [] => true
+  | s :: r => r.all (· == s)
+
+def keepKw (sig : Option (List String)) (kw : List String) : List String :=
+  match sig with
+  | some ps => kw.filter (ps.contains ·)
+  | none => []
+
+mutual
+/-- which leaf receives which keywords (in call order); `none` = `TypeError` -/
+def bbuild : BNode → List String → Option (List (Nat × List String))
+  | .leaf t ps, kw => if kw.all (ps.contains ·) then some [(t, kw)] else none
+  | .comb subs, kw => bbuildL subs (sigsMatch (bsigL subs)) kw
+def bbuildL : List BNode → Bool → List String → Option (List (Nat × List String))
+  | [], _, _ => some []
+  | n :: r, same, kw =>
+      match bbuild n (if same then kw else keepKw (bsig n) kw) with
+      | none => none
+      | some a => match bbuildL r same kw with
+          | none => none
+          | some b => some (a ++ b)
+end
+
+mutual
+def bleaves : BNode → List Nat
+  | .leaf t _ => [t]
+  | .comb s => bleavesL s
+def bleavesL : List BNode → List Nat
+  | [] => []
+  | n :: r => bleaves n ++ bleavesL r
+end
+
+-- every leaf below `n` has the parameter list `ps`
+mutual
+def uniformB (ps : List String) : BNode → Bool
+  | .leaf _ qs => qs == ps
+  | .comb s => !s.isEmpty && uniformBL ps s
+def uniformBL (ps : List String) : List BNode → Bool
+  | [] => true
+  | n :: r => uniformB ps n && uniformBL ps r
+end
+
 end Det
